@@ -5,6 +5,7 @@ mod genr;
 mod ops;
 mod types;
 mod droppanic;
+mod stale;
 mod world;
 
 use std::io::{BufRead, Write};
@@ -72,6 +73,11 @@ fn main() {
                 emit(format!("#done gen-{seed}-{s}"));
             }
             for c in genr::cells_report() { emit(format!("#cell {c}")); }
+            return;
+        }
+        "stale" => {
+            drop(out);
+            stale::run_all();
             return;
         }
         "droppanic" => {
